@@ -13,7 +13,7 @@ import json,re,sys
 m=json.load(open('$DIR/meta.json')); c=m.get('demo_cmd','')
 f=re.search(r'--features[ =]([\w,]+)',c); print(f.group(1) if f else '')")
 FEAT=""; [ -n "$DEMO_FEATURES" ] && FEAT="--features $DEMO_FEATURES"
-suite() { cargo test --workspace --no-fail-fast --offline 2>&1 | grep -E '^test .* \.\.\. (ok|FAILED|ignored)' | sort; }
+suite() { cargo test --workspace --no-fail-fast --offline 2>&1 | grep -oE 'test [A-Za-z0-9_:]+ \.\.\. (ok|FAILED|ignored)' | sort; }
 cp "$DIR/demo.rs" tests/seed_demo.rs
 cargo test --offline $FEAT --test seed_demo >/tmp/confirm_$$.log 2>&1; DEMO_CLEAN=$?
 rm -f tests/seed_demo.rs
@@ -27,6 +27,7 @@ fi
 cargo build --offline >/dev/null 2>&1; B1=$?
 cargo build --offline --features verif_hooks,json_format,toml_format,gzip,zstd >/dev/null 2>&1; B2=$?
 suite > /tmp/confirm_$$.suite; cmp -s "$BASE" /tmp/confirm_$$.suite; SUITE=$?
+[ $SUITE -ne 0 ] && diff "$BASE" /tmp/confirm_$$.suite > "$DIR/suite.diff"
 cp "$DIR/demo.rs" tests/seed_demo.rs
 cargo test --offline $FEAT --test seed_demo >/tmp/confirm_$$.log2 2>&1; DEMO_PATCHED=$?
 rm -f tests/seed_demo.rs
